@@ -311,3 +311,68 @@ Print Assumptions C14_account.
 Print Assumptions C14_progress.
 Print Assumptions C14_link_delivers_commands.
 Print Assumptions C14_chunk_frames_fit_code.
+
+(* ==================================================================================================
+   The encrypted TCP channel as a COMPOSITION (Model/RemoteSession.v): channel -> sending thread -> socket ->
+   receiving thread -> channel, per direction, under every interleaving of the seven threads of a boss <-> remote
+   doer session, every channel capacity (0 included), every socket capacity, every fault plan (cut, bad frames,
+   doer killed, stdin closed, Error replies) and every protocol the boss runs.  Proofs: Proofs/RemoteSessionFlow.v.
+     (S1) C14_remote_delivery: in EVERY reachable state, in each direction, (what the receiving application has
+          taken from its channel ++ what is still queued in that channel) is a prefix, element for element, of what the
+          sending application handed over: no loss in the middle, no duplication, no reordering, no alteration; a bad
+          frame ends the stream at that point.  C14_remote_pipeline extends the prefix through the receiving thread's
+          hands and the frames on the wire before the first bad one.
+   NOT proved (partial; the full statement for the record):
+     (S2) C14_remote_complete : forall c x s, reach c x s -> final s = true -> nfault (ev s) = 0 -> (no Error planned) ->
+            hgot (de s) = hsent (be s) /\ hgot (be s) ++ q (inc (be s)) = hsent (de s) /\
+            dexec (dm s) = the identifiers of the commands in hsent (be s).
+          Needs the nonce synchronisation invariant (receiver's counter = nonce of the next honest frame) and
+          "a final state has empty pipelines", neither of which is proved; what is here is the closed instance
+          [C14_remote_example_complete] and the differential runs. *)
+From RJ Require Model.RemoteSession Proofs.RemoteSessionBase Proofs.RemoteSessionFlow Proofs.RemoteSessionWitness.
+
+Theorem C14_remote_delivery : forall c x s, RemoteSession.reach c x s ->
+  (exists rest, RemoteSession.hsent (RemoteSession.be s) =
+     (RemoteSession.hgot (RemoteSession.de s) ++ RemoteSession.q (RemoteSession.inc (RemoteSession.de s))) ++ rest) /\
+  (exists rest, RemoteSession.hsent (RemoteSession.de s) =
+     (RemoteSession.hgot (RemoteSession.be s) ++ RemoteSession.q (RemoteSession.inc (RemoteSession.be s))) ++ rest).
+Proof. exact RemoteSessionFlow.remote_delivery. Qed.
+
+Theorem C14_remote_pipeline : forall c x s, RemoteSession.reach c x s ->
+  (RemoteSession.rcv_ended (RemoteSession.rcv_t (RemoteSession.de s)) = false ->
+     exists rest, RemoteSession.hsent (RemoteSession.be s) =
+       RemoteSession.hgot (RemoteSession.de s) ++ RemoteSession.q (RemoteSession.inc (RemoteSession.de s)) ++
+       RemoteSessionFlow.rheld (RemoteSession.rcv_t (RemoteSession.de s)) ++ RemoteSessionFlow.wpre (RemoteSession.b2d s) ++ rest) /\
+  (RemoteSession.rcv_ended (RemoteSession.rcv_t (RemoteSession.be s)) = false ->
+     exists rest, RemoteSession.hsent (RemoteSession.de s) =
+       RemoteSession.hgot (RemoteSession.be s) ++ RemoteSession.q (RemoteSession.inc (RemoteSession.be s)) ++
+       RemoteSessionFlow.rheld (RemoteSession.rcv_t (RemoteSession.be s)) ++ RemoteSessionFlow.wpre (RemoteSession.d2b s) ++ rest).
+Proof. exact RemoteSessionFlow.remote_pipeline. Qed.
+
+(* the premise is met by non-trivial states: a fault-free run at capacity 0 over a one-frame socket delivers
+   everything exactly once in both directions and the doer executes exactly the boss's commands in order;
+   with a bad frame the stream ends there *)
+Example C14_remote_example_complete : exists c x s,
+  RemoteSession.reach c x s /\ RemoteSession.final s = true /\
+  RemoteSession.hgot (RemoteSession.de s) = RemoteSession.hsent (RemoteSession.be s) /\
+  RemoteSession.hgot (RemoteSession.be s) = RemoteSession.hsent (RemoteSession.de s) /\
+  RemoteSession.dexec (RemoteSession.dm s) = [1; 2; 3]%N /\
+  length (RemoteSession.hsent (RemoteSession.be s)) = 4%nat /\ length (RemoteSession.hsent (RemoteSession.de s)) = 4%nat.
+Proof.
+  exists (RemoteSessionWitness.cfg 0 0), RemoteSessionWitness.sc_small,
+    (RemoteSession.run_to_end (RemoteSessionWitness.cfg 0 0) RemoteSessionWitness.eager_boss
+       (RemoteSession.init RemoteSessionWitness.sc_small)).
+  split; [apply RemoteSessionBase.run_sound | vm_compute; repeat split].
+Qed.
+
+Example C14_remote_example_bad_frame : exists c x s,
+  RemoteSession.reach c x s /\ RemoteSession.final s = true /\
+  RemoteSession.hgot (RemoteSession.de s) = [RemoteSession.MCmd 1 [11; 12]]%N /\
+  RemoteSession.dexec (RemoteSession.dm s) = [1%N].
+Proof.
+  eexists _, _, _. split; [apply RemoteSessionBase.run_plan_sound|].
+  destruct RemoteSessionWitness.bad_frame_ends_stream as (A & B & C & D). eauto.
+Qed.
+
+Print Assumptions C14_remote_delivery.
+Print Assumptions C14_remote_pipeline.
